@@ -29,7 +29,8 @@ MODULE = "LalrpopModel.Props.C22"
 P = "LalrpopModel.Build."
 THEOREMS = [P + t for t in [
     "crashCut_isPrefix", "crash_shape_fixed", "crash_states_fixed", "crash_inv_fixed",
-    "crash_then_build_current", "fixed_crash_then_build_current", "crash_frame", "header_then_crash",
+    "crash_then_build_current", "fixed_crash_then_build_current", "fixed_crash_then_history_then_build_current",
+    "stale_tmp_tail_kept", "crash_frame", "header_then_crash",
     "headerUtf8_canon", "inv_preserved_by_ops", "build_eq_forced", "fixed_build_eq_forced", "forced_build_output",
     "untouched_when_current",
 ]]
@@ -46,8 +47,9 @@ def run(ctx):
     ctx.coverage["write_sequence_in_source"] = variant
     ctx.coverage["source_calls"] = [f"{c}@{ln}" for c, ln in calls]
     ctx.coverage["applicable_theorem"] = (
-        "crash_then_build_current / fixed_crash_then_build_current (property holds)" if "tmp=1" in variant
-        else "header_then_crash (property is false for this write sequence)")
+        "header_then_crash (property is false for this write sequence)" if "tmp=0" in variant
+        else "stale_tmp_tail_kept (property is false: temporary file opened without truncation)" if "trunc=0" in variant
+        else "crash_then_build_current / fixed_crash_then_history_then_build_current (property holds)")
     (exe,) = ctx.build_harness(["crash"])
     args = ["--seed", ctx.seed, "--out", ctx.scratch, "--variant", variant, "--workers", 8]
     if not ctx.quick():
@@ -74,7 +76,9 @@ def run(ctx):
                 + ("every n in between for the two smallest scenarios (no output / stale output before the build), mean stride 2–13 "
                    "for the others" if not ctx.quick()
                    else "a random sample in between (mean stride 3 for the smallest scenario, 61/211 for the others)")
-                + "; per scenario (grammar, pre-existing output: none/stale/current, forced, report). "
+                + "; per scenario (grammar, pre-existing output: none/stale/current, forced, report; plus scenarios in which the "
+                  "grammar is replaced after the crash by one with a shorter / longer output and scenarios with a stale "
+                  "temporary file planted, crash points = named boundaries + write boundaries + a sample of offsets). "
                   "Counted as distinct non-trivial: distinct observed crash states (length+hash of .rs/.report/.tmp, rewritten flag)",
         "exhaustive": False,
         "exhaustive_scenarios": [] if ctx.quick() else ["small-none", "small-stale", "conflict-stale-report"],
@@ -91,13 +95,18 @@ def run(ctx):
         f = json.loads(line)
         k = f["kind"]
         count[k] = count.get(k, 0) + 1
-        key = (f["scenario"] != "small-none", not f["point"].startswith("limit"), f["crash_state_bytes"])
+        key = (f["scenario"] not in ("small-none", "medium-then-small"), not f["point"].startswith("limit"),
+               f["crash_state_bytes"])
         if k not in best or key < best[k][0]:
             best[k] = (key, f)
     ctx.coverage["finding_counts"] = count
     for k, (_, f) in sorted(best.items()):
         n = f["crash_state_bytes"]
         what = {
+            "stale-temporary-file-tail-in-output":
+                "the temporary file is opened without truncation: bytes of a longer `<name>.rs.tmp` left by an earlier "
+                "(interrupted) build survive behind the new contents and are renamed into the output, which every later "
+                "non-forced build accepts",
             "truncated-output-accepted":
                 "process_file_into writes the version line and the hash line into the .rs file before the body and "
                 "never renames: a build interrupted after the two header lines leaves a truncated file that the next "
@@ -106,12 +115,15 @@ def run(ctx):
         ctx.failing_input("c22:" + k, what, {
             "scenario": f["scenario"], "point": f["point"], "grammar": f["grammar"], "pre_output": f["pre_output"],
             "force": f["force"], "report": f["report"], "child_exit": f["child"],
+            "stale_tmp_planted_bytes": f.get("stale_tmp_planted_bytes", -1),
+            "grammar_replaced_after_crash": f.get("grammar_replaced_after_crash", False),
             "crash_state_bytes": n, "after_rebuild_bytes": f["after_rebuild_bytes"], "forced_bytes": f["forced_bytes"],
             "occurrences_this_run": count[k],
             "by_hand": "printf '%s' \"$GRAMMAR\" > g0.lalrpop; prlimit --fsize=" + str(max(n, 0)) +
                        " /repo/target/debug/lalrpop g0.lalrpop; /repo/target/debug/lalrpop g0.lalrpop; wc -c g0.rs "
                        "(compare with lalrpop -f)",
-            "model_theorem": "LalrpopModel.Build.header_then_crash",
+            "model_theorem": ("LalrpopModel.Build.stale_tmp_tail_kept" if k == "stale-temporary-file-tail-in-output"
+                              else "LalrpopModel.Build.header_then_crash"),
         })
     ctx.assumptions += [
         "fs::rename within one directory is atomic with respect to process crashes (no partial form in CrashPrefix)",
